@@ -253,7 +253,7 @@ func PlayMulti(beh M, rng *rand.Rand, proj *Projection) ([][]M, error) {
 		x.scripts["q950"] = M{"id": 950, "parse": "ok", "stmts": []any{M{"id": 950, "cols": []any{M{"name": "late", "oid": 25}}, "oids": []any{},
 			"prog": []any{M{"op": "row", "cells": []any{M{"c": "v", "_val": "late", "val": "s:late"}}}, M{"op": "complete", "tag": "LATE"}, M{"op": "ret", "r": "nil"}}}}}
 		late.Send(pgw.Query("q950"))
-		late.WaitQuiet(WaitTimeout) //nolint
+		late.WaitQuiet(WaitTimeout)                                         //nolint
 		defer func() { late.CloseClient(); late.WaitClosed(WaitTimeout) }() //nolint
 	}
 	for c := 0; c < nc; c++ {
